@@ -289,8 +289,6 @@ def eval_replace(case):
     newkw = dict(kw)
     for name, val in chs:
         newkw[name] = val
-    if newkw.get('count') is not None and newkw.get('until') is not None:
-        return Res(outcome='count+until-skipped', nontrivial=False)
     try:
         exp_rule = rrule(**newkw)
         exp = ('ok', list(itertools.islice(exp_rule, 60)))
